@@ -1027,8 +1027,11 @@ def run(ctx):
     ctx.assume("a flattened argument holding the default of a field reached through a dotted path ('' / 0 / []) is excluded "
                "from the kwargs==request oracle: whether the parent messages count as set is not fixed by the statement")
     ctx.assume("at most one member of a oneof is flattened per method (oneof clearing is protobuf's, not the generator's)")
-    ctx.assume("well-known / raw-protobuf message types inside a same-package request (FieldMask, Duration, Timestamp, wrappers, Struct, "
-               "Value) are leaves of signatures: a path INTO them (e.g. \"mask.paths\", \"ttl.seconds\") is not generated")
+    ctx.assume("a signature path INTO a well-known type that proto-plus marshals to a python value (\"ttl.seconds\", \"ts.nanos\", "
+               "\"wrapped.value\", \"meta.fields\") is not generated (it fails in both clients: the attribute is set on a temporary); "
+               "paths into unmarshalled raw messages (FieldMask, google.rpc.Status, IAM Policy, Operation) ARE generated")
+    ctx.assume("which modules the emitted client imports is not modelled (C01): the one import failure that flattening itself causes "
+               "(map with an external value type) is replayed from the corpus as a known finding")
     r = ctx.rng("flatten")
     for name, blob in corpus_entries():
         run_api(ctx, ctx.rng("corpus", name), blob["spec"], f"corpus:{name}", plans=blob.get("plans"))
@@ -1065,13 +1068,16 @@ CLAIM = dict(
           '(apply_sync_eq_set, apply_async_eq_set, apply_async_cross_eq_set, sync_async_agree, kwargs_equiv_request[_cross]); the sync macro of a '
           'same-package request is plain assignment unconditionally (apply_sync_eq_set_unconditional); (3) request + any flattened argument, '
           'falsy ones included, raises ValueError before anything is sent, and only then (mixed_call_rejected, rejected_before_send, '
-          'value_error_iff_mixed); (4) every rendered request.<key> is a keyword-free attribute path that proto-plus resolves to the fields '
+          'value_error_iff_mixed), AttributeError exactly when a given key ends in a field of a RAW protobuf sub-message that protobuf '
+          'refuses to assign (attribute_error_iff, async_raw_ok_of_sync); (4) every rendered request.<key> is a keyword-free attribute path that proto-plus resolves to the fields '
           'get_field found, reserved words and keywords in any position included (key_attr_resolves, emit_never_keyword_attr; regression for the '
-          'repaired §9-F2: keyword_segment_regression). Five *_counterexample theorems pin the inputs '
+          'repaired §9-F2: keyword_segment_regression). Seven *_counterexample theorems pin the inputs '
           'where the real code leaves the statement (all reproduced on /repo, see findings/C05.json). Tie: T1 bridge lemmas for RESERVED_NAMES '
           'and keyword.kwlist; T2 the real flattened_fields/_fields_mapping vs the model on generated and unresolvable signatures; T3 the emitted '
           'sync and asyncio clients against a loopback gRPC server (inspect.signature; bytes of kwargs / request / mixed calls decoded under the '
-          'input descriptors) vs the model; a model-independent oracle restating the property.'),
+          'input descriptors) vs the model; arguments are LITERALS a caller writes (python scalars, bytes, enum members, datetime/timedelta, native '
+          'JSON for Struct/Value/ListValue, raw protobuf objects, generated classes built by keyword, hand-written dicts, positional request), '
+          'every call is run twice with the same objects; a model-independent oracle restating the property.'),
     technique='Lean 4 theorems (commutation of slot updates on diverging paths, permutation-invariance of folds, induction over paths) '
               '+ differential T2 (schema functions) and T3 (emitted sync/asyncio clients on loopback gRPC) + wire-level oracle',
     design="7.5",
@@ -1079,5 +1085,5 @@ CLAIM = dict(
           'python-level type errors are outside the model (the generator keeps to one oneof member per method and treats well-known types as '
           'leaves). The kwargs==request oracle is not applied to default-valued arguments of dotted keys (presence of the parents is not fixed '
           'by the statement); sync==asyncio is. Requests from a proto sub-package of the API (proto-plus types with a different package tuple) '
-          'are not generated. Five known findings are listed in findings/C05.json and replayed from corpus/C05 on every run.'),
+          'are not generated. Client-streaming methods (no flattened parameter at all) are modelled and checked by signature only. Eight known findings are listed in findings/C05.json and replayed from corpus/C05 on every run.'),
 )
